@@ -62,6 +62,43 @@ def conflicts(rng):
                 mode=dict(origin=None, check_spec=False, no_conflicted=False, cov_every_step=True))
 
 
+def edit_vs_delete(rng):
+    """C02 family: a synchronised file is deleted (or renamed) on one side while the other side writes a newer
+    version, in either order, with any engine steps in between; the newer version must survive (covered set).
+    Both sides id-stable, one racing pair per drain, fresh names."""
+    cands = [f for f in CLEAN_FLAVOURS if not f.oip[0] and not f.oip[1]]
+    fl = rng.choice(cands)
+    g = EC.Gen(rng, fl, [0, 1], 0)
+    g.allow_empty = False
+    for _ in range(rng.randint(2, 5)):
+        rel = "/" + g.fresh("F")
+        g.tree[rel] = "F"
+        g.base.append(["create", g.abs(0, rel), g.content()])
+    g.sched.append(["drain"])
+    for _ in range(rng.randint(1, 3)):
+        files = g.files()
+        if not files:
+            break
+        rel = rng.choice(files)
+        x = rng.choice([0, 1])                 # the side that deletes
+        y = 1 - x
+        dele = ["user", x, ["delete", g.abs(x, rel)]]
+        edit = ["user", y, ["write", g.abs(y, rel), g.content()]]
+        first, second = (dele, edit) if rng.random() < 0.5 else (edit, dele)
+        g.sched.append(first)
+        g.engine_noise(0.5)
+        g.sched.append(second)
+        # the engine learns of the two changes in any order, with sync steps in between
+        for _ in range(rng.randint(0, 4)):
+            g.sched.append(rng.choice([["intake", 0], ["intake", 1], ["sync"]]))
+        if rng.random() < 0.3:
+            g.one_op_simple(rng.choice([0, 1]))
+        g.sched.append(["drain"])
+        del g.tree[rel]        # whatever the outcome, the name is not used again
+    return dict(flavour=fl.key(), base=g.base, schedule=g.sched, hash_mult=rng.choice([1, 3, 7, 11, 2654435761]),
+                mode=dict(origin=None, check_spec=False, no_conflicted=False, cov_every_step=True))
+
+
 def confinement(rng):
     """C12 family: one acting side (id-stable); objects inside the root, in other folders, in a prefix-sibling
     folder, at the account root; moves across the root boundary; roots by path or by oid; optionally a translate
